@@ -113,6 +113,8 @@ class Tracker:
                 self.tampered = True
             if a in ("SwapS2C", "Inject", "TamperS2C"):
                 self.order_preserving = False
+        elif a == "ArmRaise":
+            self.app_bug = True
         elif a == "Serve":
             conn = self.w.conn(act["k"])
             if conn.c2s and conn.c2s[0].get("type") == "add":
@@ -189,7 +191,7 @@ class Tracker:
             if key not in ids:
                 ids[key] = "%s%d" % (prefix, len([k for k in ids if k[0] == prefix]) + 1)
             return ids[key]
-        out = {"tid": tid, "cl": {}, "internal": [], "orderPreserving": bool(self.order_preserving and not self.tampered), "tampered": bool(self.tampered),
+        out = {"tid": tid, "cl": {}, "internal": [], "orderPreserving": bool(self.order_preserving and not self.tampered), "tampered": bool(self.tampered), "appBug": bool(getattr(self, "app_bug", False)),
                "drained": bool(drained), "goal": bool(goal), "match": self.codes_match(),
                "bothCoded": all(getattr(c, "code_used", None) for c in w.clients.values())}
         for (n, entry, e) in w.internal:
@@ -266,6 +268,7 @@ class Tracker:
                 "codeApi": list(cl.code_api),
                 "selfClosed": getattr(self, "self_closed", {}).get(name, "-"),
                 "verifier": verifier, "derived": dvals, "derivedDistinct": dd, "heard": st["heard"], "unbacked": list(st["unbacked"]),
+                "statusHist": [list(x) for x in getattr(cl, "statuses", [])],
             }
         if extra:
             out.update(extra)
